@@ -14,7 +14,7 @@ PROP = dict(
                     "(LSan scans conservatively; non-adjacent stray writes are not seen)"),
         legs=[dict(name="c08_fuzz", kind="fuzz", src=["c08_fuzz.c", "c08_gen.c"], libs=["mptcore"], runs={"thorough": 150000}, max_len=1500,
                corpus="corpus/c08", floors={"fuzz:documents": 1000000, "mpt_parse_config": 500000}),
-          dict(name="c08_parse", memcheck=1500, src=["c08_parse.c", "c08_gen.c"], libs=["mptcore"], batch=256, lsan=True,
+          dict(name="c08_parse", memcheck=1500, src=["c08_parse.c", "c08_gen.c", "c08_rec.c"], libs=["mptcore"], batch=256, lsan=True,
                    floors={"mpt_parse_config": 200000, "mpt_parse_node": 120000, "direct-loop": 40000,
                            "family:prefix": 60000, "family:enclosed": 25000, "family:enclosed-same-char": 10000,
                            "family:separated": 30000, "family:options-only": 20000,
@@ -24,7 +24,7 @@ PROP = dict(
                            "state:depth>=3": 5000, "doc:with-long-token": 15000,
                            "fault:getc-error-delivered": 15000, "fault:save-refused": 5000,
                            "state:merged-into-existing": 30000, "state:flat-section-open-at-eof": 5000}),
-              dict(name="c08_cxx", memcheck=500, src=["c08_cxx.cpp", "c08_gen.c"], libs=["mpt++", "mptio", "mptplot", "mptcore"], batch=256, lsan=True,
+              dict(name="c08_cxx", memcheck=500, src=["c08_cxx.cpp", "c08_gen.c", "c08_rec.c"], libs=["mpt++", "mptio", "mptplot", "mptcore"], batch=256, lsan=True,
                    floors={"parser::read": 60000, "config_parser::set_format": 60000, "set_format:refused": 200,
                            "outcome:accepted": 15000, "outcome:rejected": 25000,
                            "monitor:snapshot-compared-nonempty": 15000, "monitor:result-nodes-read": 50000})],
